@@ -72,3 +72,44 @@ pub struct LivenessEvaluationIsPrivate;
 /// fn f(s: &chitchat::NodeState) { let _ = s.heartbeat(); }
 /// ```
 pub struct IncHeartbeatIsPrivate;
+
+/// C10/C11/C12 (R11.5) — the failure detector and its sampling windows are not nameable from outside: the who-may-call
+/// tables of R11.5 are closed over the crate.
+/// ```compile_fail,E0603
+/// fn f(_: &chitchat::failure_detector::FailureDetector) {}
+/// ```
+/// twin (only its configuration is public):
+/// ```
+/// fn f(_: &chitchat::FailureDetectorConfig) {}
+/// ```
+pub struct FailureDetectorIsPrivate;
+
+/// C15 (R15.6) — the listener registry is not nameable from outside; subscriptions go through `Chitchat::subscribe_event`.
+/// ```compile_fail,E0603
+/// fn f(_: &chitchat::listener::Listeners) {}
+/// ```
+/// twin:
+/// ```
+/// fn f(_: &chitchat::ListenerHandle) {}
+/// ```
+pub struct ListenerRegistryIsPrivate;
+
+/// C06 (R06.6) — tombstone GC of a node state cannot be driven from outside with an arbitrary grace period.
+/// ```compile_fail,E0624
+/// fn f(s: &mut chitchat::NodeState) { s.gc_keys_marked_for_deletion(std::time::Duration::ZERO); }
+/// ```
+/// twin:
+/// ```
+/// fn f(s: &chitchat::NodeState) { let _ = s.num_key_values(); }
+/// ```
+pub struct NodeStateGcIsPrivate;
+
+/// C02/C14 — a delta cannot be applied to a node state from outside (admission cannot be bypassed through the public API).
+/// ```compile_fail,E0624
+/// fn f(s: &mut chitchat::NodeState, k: String, v: chitchat::VersionedValue) { s.set_versioned_value(k, v); }
+/// ```
+/// twin (the local write API is public):
+/// ```
+/// fn f(s: &mut chitchat::NodeState) { s.set("k", "v"); }
+/// ```
+pub struct VerbatimStoreIsPrivate;
